@@ -213,6 +213,53 @@ func (e *Exec) localEnv(s *State) func(string) (Value, bool) {
 			}
 			return Value{T: &GhostMap{K: kt, V: tBool}, S: []string{e.compTerm(s, comp, sortS)}}, true
 		}
+		if name == "rangeseq" || strings.HasPrefix(name, "rangeseq#") {
+			// the slice a range loop iterates over (whatever it is called in the source, or an unnamed
+			// expression): found through the element access indexed by the loop's hidden counter
+			idxName := "rangeindex" + strings.TrimPrefix(name, "rangeseq")
+			var idxAlloc *ssa.Alloc
+			wantK, seenK := 0, 0
+			if i := strings.LastIndex(idxName, "#"); i > 0 {
+				wantK, _ = strconv.Atoi(idxName[i+1:])
+			}
+			var cands []*ssa.Alloc
+			for _, b := range e.Fn.Blocks {
+				for _, ins := range b.Instrs {
+					if a, ok := ins.(*ssa.Alloc); ok && a.Comment == "rangeindex" {
+						seenK++
+						if wantK > 0 && seenK == wantK {
+							idxAlloc = a
+						}
+						cands = append(cands, a)
+					}
+				}
+			}
+			if wantK == 0 {
+				// the innermost range loop whose counter is live here
+				for _, a := range cands {
+					if _, ok := s.cells[a]; ok && (e.cur == nil || a.Block().Dominates(e.cur)) {
+						idxAlloc = a
+					}
+				}
+			}
+			if idxAlloc == nil || idxAlloc.Referrers() == nil {
+				return Value{}, false
+			}
+			for _, r := range *idxAlloc.Referrers() {
+				ld, ok := r.(*ssa.UnOp)
+				if !ok || ld.Referrers() == nil {
+					continue
+				}
+				for _, u := range *ld.Referrers() {
+					if ia, ok := u.(*ssa.IndexAddr); ok && ia.Index == ssa.Value(ld) {
+						if v, ok := e.vals[ia.X]; ok {
+							return v, true
+						}
+					}
+				}
+			}
+			return Value{}, false
+		}
 		var best *ssa.Alloc
 		want := 0 // "name#k": the k-th declaration of that name in source order
 		if i := strings.LastIndex(name, "#"); i > 0 {
